@@ -13,7 +13,7 @@
 From Coq Require Import ZArith List Bool.
 From Coq Require Strings.String.
 Import Coq.Strings.String.StringSyntax.
-From AQ Require Import Evm.OpsProofs Generated.GenJumpTables Generated.GenParamsEvm.
+From AQ Require Import Evm.OpsProofs Generated.GenJumpTables Generated.GenParamsEvm Generated.GenGasObs.
 Import ListNotations.
 Local Open Scope string_scope.
 Local Open Scope Z_scope.
@@ -286,6 +286,85 @@ Theorem C08_memory_step :
   end).
 Proof. exact memory_step_all. Qed.
 Print Assumptions C08_memory_step.
+
+(* ---- 2f. the gas functions under EVERY fork rule set the built-in chain configurations reach (Generated/GenGasObs.v:
+   gen_rulesets = gas table x IsEIP150 x IsEIP158, regenerated from the source on every run).
+   (i) gas_functions_observed: what the REAL gasCall / gasCallCode / gasDelegateCall / gasStaticCall / gasSuicide / gasSStore /
+       gasExp / gasSha3 / copy / gasExtCodeCopy / gasCreate / gasLog0-4 returned, under each rule set, on the generated operand
+       lattice (value 0 / non-zero, callee empty / existing, memory sizes, gas left, requested gas) is what the model returns
+       (callgas_check etc. are `forallb (model o =? observed o) generated_list`, OpsProofsGasRules.v) - a dropped surcharge,
+       a changed cap or rule flag in gas_table.go breaks THIS obligation;
+   (ii) for each generated rule set and ALL inputs the functions equal the Yellow-Paper / EIP-150 / EIP-158 formulas:
+       G_call + 9000 iff value <> 0 + 25000 under the fork's new-account rule (EIP-158: value <> 0 and callee empty; before:
+       callee non-existent) + memory expansion + min(all-but-one-64th, requested) forwarded; errGasUintOverflow explicit;
+   (iii) the stipend (2300 iff value <> 0) that opCall / opCallCode add to the forwarded gas never exceeds what the gas
+       function charged for the transfer (9000), hence gas after <= gas before for every callee outcome that returns at most
+       what it was given (C07: a frame never ends with more gas than it got). ---- *)
+Theorem C08_gas_functions_observed :
+  callgas_check = true /\ suicide_check = true /\ sstore_check = true /\ memgas_check = true.
+Proof. exact gas_functions_observed. Qed.
+Print Assumptions C08_gas_functions_observed.
+
+Theorem C08_call_family_gas_is_yp :
+  forall r, In r gen_rulesets ->
+  let g := gt_of_gen r in
+  (forall value empty exist w0 ms avail cost, word value -> word cost -> 0 <= w0 < 2^32 -> 0 <= ms <= 0x1FFFFFFFE0 -> avail < two64 ->
+     let extra := C_extra (gf_Calls g) (grs_eip158 r) value empty exist in
+     extra + memfee w0 ms <= avail ->
+     gasCall g (grs_eip158 r) value empty exist (32 * w0) (Cmem w0) ms avail cost =
+       Ok (C_call extra (memfee w0 ms) avail cost, C_gascap avail (extra + memfee w0 ms) cost, Cmem (Z.max w0 (ceil32 ms)))) /\
+  (forall value empty exist w0 ms avail cost res, word value -> word cost -> 0 <= w0 < 2^32 -> 0 <= ms <= 0x1FFFFFFFE0 -> 0 <= avail < two64 ->
+     avail < C_extra (gf_Calls g) (grs_eip158 r) value empty exist + memfee w0 ms ->
+     gasCall g (grs_eip158 r) value empty exist (32 * w0) (Cmem w0) ms avail cost = Ok res -> avail < fst (fst res)) /\
+  (forall value w0 ms avail cost, word value -> word cost -> 0 <= w0 < 2^32 -> 0 <= ms <= 0x1FFFFFFFE0 -> avail < two64 ->
+     let extra := gf_Calls g + C_xfer value in
+     extra + memfee w0 ms <= avail ->
+     gasCallCode g value (32 * w0) (Cmem w0) ms avail cost =
+       Ok (C_call extra (memfee w0 ms) avail cost, C_gascap avail (extra + memfee w0 ms) cost, Cmem (Z.max w0 (ceil32 ms)))) /\
+  (forall w0 ms avail cost, word cost -> 0 <= w0 < 2^32 -> 0 <= ms <= 0x1FFFFFFFE0 -> avail < two64 ->
+     gf_Calls g + memfee w0 ms <= avail ->
+     gasDelegateCall g (32 * w0) (Cmem w0) ms avail cost =
+       Ok (C_call (gf_Calls g) (memfee w0 ms) avail cost, C_gascap avail (gf_Calls g + memfee w0 ms) cost, Cmem (Z.max w0 (ceil32 ms))) /\
+     gasStaticCall g (32 * w0) (Cmem w0) ms avail cost = gasDelegateCall g (32 * w0) (Cmem w0) ms avail cost).
+Proof. exact call_family_gas_is_yp. Qed.
+Print Assumptions C08_call_family_gas_is_yp.
+
+Theorem C08_other_gas_is_yp :
+  forall r, In r gen_rulesets ->
+  let g := gt_of_gen r in
+  (forall empty exist bal already,
+     gasSuicide g (grs_eip150 r) (grs_eip158 r) empty exist bal already =
+       (C_selfdestruct (gf_Suicide g) (gf_CreateBySuicide g) true (grs_eip158 r) empty exist bal, R_selfdestruct already)) /\
+  (forall cur y, word cur -> word y -> gasSStore cur y = (C_sstore cur y, R_sstore cur y)) /\
+  (forall e, word e -> gasExp (gt_of_full g) e = Ok (G_exp (gf_ExpByte g) e)) /\
+  (forall memLen last ms len fee last', word len -> memoryGasCost memLen last ms = Ok (fee, last') -> 0 <= fee < two64 ->
+     gasExtCodeCopy (gt_of_full g) memLen last ms len =
+       if (len <? two64) && (fee + gf_ExtcodeCopy g + 3 * ceil32 len <=? maxU64)
+       then Ok (fee + gf_ExtcodeCopy g + 3 * ceil32 len, last') else Err ErrGasUintOverflow) /\
+  (forall n memLen last ms requested fee last', 0 <= n <= 4 -> word requested -> memoryGasCost memLen last ms = Ok (fee, last') -> 0 <= fee < two64 ->
+     gasLog n memLen last ms requested =
+       if (requested <? two64) && (fee + G_log n requested <=? maxU64) then Ok (fee + G_log n requested, last') else Err ErrGasUintOverflow) /\
+  (forall memLen last ms len fee last', word len -> memoryGasCost memLen last ms = Ok (fee, last') -> 0 <= fee < two64 ->
+     gasCallDataCopy memLen last ms len =
+       if (len <? two64) && (fee + G_copy len <=? maxU64) then Ok (fee + G_copy len, last') else Err ErrGasUintOverflow) /\
+  (forall memLen last ms fee last', memoryGasCost memLen last ms = Ok (fee, last') -> 0 <= fee < two64 ->
+     gasCreate memLen last ms = if fee + 32000 <=? maxU64 then Ok (fee + 32000, last') else Err ErrGasUintOverflow).
+Proof. exact other_gas_is_yp. Qed.
+Print Assumptions C08_other_gas_is_yp.
+
+Theorem C08_call_stipend_never_mints_gas :
+  forall r, In r gen_rulesets ->
+  let g := gt_of_gen r in
+  (forall value empty exist memLen last ms avail cost gas temp l' returned, word value -> 0 <= avail ->
+     gasCall g (grs_eip158 r) value empty exist memLen last ms avail cost = Ok (gas, temp, l') ->
+     gas <= avail -> 0 <= returned <= temp + stipend value ->
+     avail - gas + returned <= avail /\ stipend value <= C_xfer value) /\
+  (forall value memLen last ms avail cost gas temp l' returned, word value -> 0 <= avail ->
+     gasCallCode g value memLen last ms avail cost = Ok (gas, temp, l') ->
+     gas <= avail -> 0 <= returned <= temp + stipend value ->
+     avail - gas + returned <= avail /\ stipend value <= C_xfer value).
+Proof. exact call_stipend_never_mints_gas. Qed.
+Print Assumptions C08_call_stipend_never_mints_gas.
 
 (* ---- 3. JUMPDEST analysis: never panics; a destination is accepted iff it is a JUMPDEST that starts an instruction ---- *)
 
@@ -596,6 +675,15 @@ Example C08_example_aliasing :
   option_map view (rrun [R_push 5; R_dup 1; R_push 7; R_bin Z.add; R_swap 1] (mk_rstate (fun _ => 0) 0 [] [])) = Some [5; 12] /\
   vrun [R_push 5; R_dup 1; R_push 7; R_bin Z.add; R_swap 1] [] = Some [5; 12].
 Proof. vm_compute. split; reflexivity. Qed.
+
+(* non-vacuity of 2f: there are four generated rule sets; under the post-HF7 mainnet one a CALLCODE with value charges
+   700 + 9000 + forwarded gas, forwards min(63/64 of the rest, requested) and the 2300 stipend stays below the 9000 *)
+Example C08_example_gas_rules :
+  length gen_rulesets = 4%nat /\ In (rs_nth 2) gen_rulesets /\ grs_eip158 (rs_nth 2) = true /\
+  gasCallCode (gt_of_gen (rs_nth 2)) 1 64 6 0 100000 50000 = Ok (700 + 9000 + 50000, 50000, 6) /\
+  gasCall (gt_of_gen (rs_nth 2)) true 1 true false 64 6 0 100000 (2^200) = Ok (34700 + (65300 - 65300 / 64), 65300 - 65300 / 64, 6) /\
+  stipend 1 = 2300 /\ C_xfer 1 = 9000.
+Proof. vm_compute. repeat split; try reflexivity. right. right. left. reflexivity. Qed.
 
 (* Interp is imported only here: it reuses some names of OpsSpec / OpsModel (G_log, CallStipend, ...) *)
 From AQ Require Import Evm.Interp Evm.OpsProofsState.
